@@ -389,7 +389,14 @@ def d5_tscale(ctx):
         ctx.violation(fi, fi.node, f"tscale[k] = {got}", f"time scale normalises to {got}; window k is centred at {full} (full windows)", key="tscale")
 
 
+def dS_shared(ctx):
+    from sa.common import rule_no_shared_mutation
+    rule_no_shared_mutation(ctx, "DS", ['ibldsp.utils.WindowGenerator.__init__', 'ibldsp.utils.WindowGenerator.firstlast', 'ibldsp.utils.WindowGenerator.firstlast_valid', 'ibldsp.utils.WindowGenerator.firstlast_splicing', 'ibldsp.utils.WindowGenerator.tscale'],
+                            'the windows of a second generator depend on the first')
+
+
 def run(ctx):
+    ctx.run(dS_shared)
     ctx.run(d1_generator)
     ctx.run(d2_valid)
     ctx.run(d3_count)
